@@ -299,6 +299,10 @@ async fn run_history(name: &str, cfg: HistoryCfg, blocks: usize, with_nft: bool,
         rep.add("outputs_matched", (due.len() - unmatched.len()) as u64);
         // ---- the originals (and anything older than the window) can no longer be spent: probe
         // on the replica after it accepted block n
+        if step.tip_moved && expiring_blocks % 4 == 1 {
+            let t = step.hash;
+            forged_rebroadcast_probe(&mut h, rng, rep, name, &t).await;
+        }
         if step.tip_moved && expiring_blocks % 2 == 0 {
             let chain = h.replica.chain.read().await;
             let mut probes: Vec<OutRef> = due.iter().filter(|o| o.slip_type != TYPE_BOUND && h.b.actors.iter().any(|a| a.pk == o.owner)).take(3).cloned().collect();
@@ -329,6 +333,94 @@ async fn run_history(name: &str, cfg: HistoryCfg, blocks: usize, with_nft: bool,
     }
     if expiring_blocks > 0 {
         rep.sample(json!({"regime": name, "gp": gp, "expiring_blocks": expiring_blocks}));
+    }
+}
+
+/// "no other output is rebroadcast": a hostile producer puts a rebroadcast-typed transaction that
+/// moves a live, in-window output of somebody else to itself into its next block (with and without
+/// a rebroadcast-typed output slip; the block is otherwise what the real producer builds). A node
+/// holding the parent chain must not adopt the block.
+async fn forged_rebroadcast_probe(h: &mut History, rng: &mut Rng, rep: &mut Report, name: &str, tip: &Hash) {
+    use saito_core::core::consensus::slip::SlipType;
+    use saito_core::core::consensus::transaction::TransactionType;
+    let gp = h.cfg.params.gp;
+    let ledger = h.b.store.ledger(tip);
+    let n = ledger.tip_id + 1;
+    let attacker = h.b.actors[0].clone();
+    let victim_out = ledger.utxo.values().find(|o| o.owner != attacker.pk && o.slip_type == 0 && o.amount > 1_000 && o.block_id + gp > n + 2 && h.b.actors.iter().any(|a| a.pk == o.owner)).cloned();
+    let vo = match victim_out {
+        Some(o) => o,
+        None => return,
+    };
+    let victim = h.b.actors.iter().find(|a| a.pk == vo.owner).unwrap().clone();
+    let ts = h.b.store.get(tip).ts;
+    // "reappears for the same owner": an output that was rebroadcast (slip type ATR) still belongs
+    // to its owner; somebody else's transaction listing it as a further input must not be admitted
+    let thief = h.b.actors[2].clone();
+    let rebroadcast_out = ledger.utxo.values().find(|o| o.slip_type == 1 && o.owner != thief.pk && o.amount > 100 && o.block_id + gp > n + 2 && h.b.actors.iter().any(|a| a.pk == o.owner)).cloned();
+    let own = ledger.safe_owned_by(&thief.pk, gp).into_iter().find(|o| o.slip_type == 0 && o.amount > 100);
+    if let (Some(ro), Some(own)) = (rebroadcast_out, own) {
+        let tx = build_tx(&thief, &[own.clone(), ro.clone()], &[(thief.pk, own.amount + ro.amount - 20)], ts + 60, &[]);
+        let key = h.b.actors[h.cfg.replica_key].clone();
+        let node = h.b.fresh_replica(tip, &key).await;
+        let chain = node.chain.read().await;
+        let mut pool = Mempool::new(node.wallet.clone());
+        pool.add_transaction_if_validates(tx.clone(), &chain).await;
+        rep.eval();
+        rep.count("rebroadcast_output_theft_probes");
+        if pool.transactions.contains_key(&tx.signature) {
+            rep.violation(
+                "C13|clause=rebroadcast-output-spendable-by-another-key",
+                &format!("[{}] at block {}: an output rebroadcast in block {} (amount {}) is accepted as a further input of a transaction signed by somebody else", name, n, ro.block_id, ro.amount),
+                json!({"tx_hex": hex::encode(tx.serialize_for_net())}),
+            );
+        }
+    }
+    for atr_output in [true, false] {
+        let mut tx = build_tx(&attacker, &[vo.clone()], &[(attacker.pk, vo.amount)], ts + 50, &[]);
+        tx.transaction_type = TransactionType::ATR;
+        if atr_output {
+            tx.to[0].slip_type = SlipType::ATR;
+        }
+        tx.data = build_tx(&victim, &[vo.clone()], &[(victim.pk, vo.amount.saturating_sub(10))], ts + 50, &[]).serialize_for_net();
+        tx.sign(&attacker.sk);
+        let with_gt = h.pick_gt(rng, tip);
+        let gt = if with_gt {
+            let ticket = mine_gt(rng, *tip, h.b.store.get(tip).block.difficulty, &attacker.pk);
+            Some(gt_tx(&ticket, &attacker))
+        } else {
+            None
+        };
+        let producer = h.b.producer_at(tip).await;
+        let built = crate::panics::catch_async(producer.create_block(*tip, ts + 2 * h.cfg.params.heartbeat, vec![tx], gt)).await;
+        h.b.keep_producer(*tip, producer);
+        let block = match built {
+            Ok(Ok(b)) => b,
+            _ => {
+                rep.count("forged_rebroadcast_producer_refused");
+                continue;
+            }
+        };
+        let bytes = block_bytes(&block);
+        let key = h.b.actors[h.cfg.replica_key].clone();
+        let mut node = h.b.fresh_replica(tip, &key).await;
+        let before = node.tip().await;
+        let r = crate::panics::catch_async(node.add_bytes(&bytes)).await;
+        rep.eval();
+        rep.count("forged_rebroadcast_probes");
+        rep.nontrivial(&format!("forged-atr|{}|{}|{}", name, n, atr_output));
+        match r {
+            Err(p) => rep.violation(&format!("C13|clause=forged-rebroadcast-aborts-node|{}", p.signature()), &format!("[{}] block {} carrying a forged rebroadcast: {}", name, n, p.message), json!({"block_hex": hex::encode(&bytes)})),
+            Ok(_) => {
+                if node.tip().await != before {
+                    rep.violation(
+                        &format!("C13|clause=output-not-due-rebroadcast-to-another-owner|output-slip={}", if atr_output { "atr" } else { "normal" }),
+                        &format!("[{}] block {} carries a rebroadcast-typed transaction that moves an output of block {} (amount {}, in window, not due) from its owner to the block's creator, and is adopted", name, n, vo.block_id, vo.amount),
+                        json!({"block_hex": hex::encode(&bytes)}),
+                    );
+                }
+            }
+        }
     }
 }
 
